@@ -104,6 +104,9 @@ def import_rules(ctx, modname, rules):
     for v in sub.violations:
         if v["rule"] in rules:
             ctx.violations.append(dict(v, key="%s/%s/%s" % (ctx.prop, v["rule"], v["instance"])))
+    for r in sorted(rules):
+        if not any(o["rule"] == r for o in sub.obligations) and not any(v["rule"] == r for v in sub.violations):
+            ctx.fail("import", "%s:%s" % (modname, r), "rule %s of the %s rule set produced no obligation: the adopted clause is vacuous" % (r, modname.upper()))
     ctx.fns_analysed |= sub.fns_analysed
     ctx.note("adopted %d obligations of rules %s from the %s rule set" % (n, sorted(rules), modname.upper()))
     return n
